@@ -270,28 +270,100 @@ def SSt.stepBulk (s : SSt) (ts : List String) : Option (Option (SSt × String)) 
       fun (s1, ys, ok) => (s1, showYield ys true ok))
   | _ => s.step ts
 
-/-- Driver state: the list in focus (`SSt`) and the `head`/`tail`/`len` of a second `SList` that
-shares the node store; the line `flip` exchanges the two.  (The refinement theorem speaks about
-one list; the second list is exercised by the differential run only.) -/
-def runSOps (big : Bool) : Ptr × Ptr × Int → Option SSt → List String → List String
+/-! ### a family of `SList`s over one node store -/
+
+/-- Any number of `SList`s (`head`/`tail`/`len` per list id) sharing the nodes. -/
+structure SFam where
+  next  : PM
+  val   : IM
+  fresh : Nat
+  hd    : PM
+  tl    : PM
+  ln    : IM
+
+def SFam.zero : SFam :=
+  { next := .empty, val := .empty, fresh := 0, hd := .empty, tl := .empty, ln := .empty }
+
+/-- The `*SList` with id `k`, as the single-list state the methods are written against. -/
+def SFam.view (F : SFam) (k : Nat) : SSt :=
+  { next := F.next, val := F.val, head := F.hd.get k, tail := F.tl.get k, len := F.ln.get k,
+    fresh := F.fresh }
+
+def SFam.put (F : SFam) (k : Nat) (s : SSt) : SFam :=
+  { next := s.next, val := s.val, fresh := s.fresh, hd := F.hd.set k s.head, tl := F.tl.set k s.tail,
+    ln := F.ln.set k s.len }
+
+/-- A call on list `k` of the family. -/
+def SFam.apply (F : SFam) (k : Nat) (op : SOp) : Option (SFam × DRes) :=
+  ((F.view k).apply op).map fun (s1, r) => (F.put k s1, r)
+
+def SFam.run : SFam → List (Nat × SOp) → Option (SFam × List DRes)
+  | F, [] => some (F, [])
+  | F, (k, op) :: ops => do
+    let (F1, r) ← F.apply k op
+    let (F2, rs) ← F1.run ops
+    pure (F2, r :: rs)
+
+/-- Ranging over list `l` (`All()` / the `Front`–`Next` loop) while the body calls the API on ANY
+list of the family; `Next` is evaluated after the body. -/
+def SFam.rangeAll (body : Nat → List (Nat × SOp)) (stop : Nat → Bool) :
+    Nat → Nat → Ptr → SFam → List (Nat × Int) → Option (SFam × List (Nat × Int) × Bool)
+  | _, _, none, F, acc => some (F, acc.reverse, true)
+  | 0, _, some _, F, acc => some (F, acc.reverse, false)
+  | f + 1, i, some e, F, acc => do
+    let y := (e, F.val.get e)
+    let (F1, _) ← F.run (body i)
+    if stop i then some (F1, (y :: acc).reverse, true)
+    else SFam.rangeAll body stop f (i + 1) (F1.next.get e) F1 (y :: acc)
+
+/-- Body-script call names: `op` acts on the list in focus, `o.op` on the other list. -/
+def parseFOp (F : SFam) (cur : Nat) (ts : List String) : Option (Nat × SOp) :=
+  match ts with
+  | [] => none
+  | name :: args =>
+    if name.startsWith "o." then (parseSOp (F.view cur) ((name.drop 2).toString :: args)).map fun op => (1 - cur, op)
+    else (parseSOp (F.view cur) ts).map fun op => (cur, op)
+
+/-- One protocol line on the family; `cur` = the list in focus. -/
+def SFam.stepLine (F : SFam) (cur : Nat) (ts : List String) : Option (Option (SFam × String)) :=
+  match ts with
+  | "allbody" :: script => do
+    let (ops, brk) ← parseBody (parseFOp F cur) script
+    pure ((SFam.rangeAll (bodyAt ops) (fun i => brk.contains i) bigCap 0 (F.hd.get cur) F []).map
+      fun (F1, ys, ok) => (F1, showYield ys false ok))
+  | "walkbody" :: script => do
+    let (ops, brk) ← parseBody (parseFOp F cur) script
+    pure ((SFam.rangeAll (bodyAt ops) (fun i => brk.contains i) bigCap 0 (F.hd.get cur) F []).map
+      fun (F1, ys, ok) => (F1, showYield ys true ok))
+  | "pushn" :: _ | "removen" :: _ | "removeln" :: _ => do
+    -- bulk lines: repeated calls on the view of the list in focus
+    let r ← (F.view cur).stepBulk ts
+    pure (r.map fun (s1, out) => (F.put cur s1, out))
+  | _ => do
+    let op ← parseSOp (F.view cur) ts
+    pure ((F.apply cur op).map fun (F1, r) => (F1, showRes r))
+
+/-- Driver: the family with two lists (ids 0 and 1); the line `flip` changes the list in focus;
+every other line is `SFam.apply` on the list in focus (the function `c13_slist_family_refines`
+is about). -/
+def runSOps (big : Bool) : Nat → Option SFam → List String → List String
   | _, _, [] => []
-  | pk, none, _ :: ls => "dead" :: runSOps big pk none ls
-  | pk, some s, l :: ls =>
+  | cur, none, _ :: ls => "dead" :: runSOps big cur none ls
+  | cur, some F, l :: ls =>
+    let dump (F : SFam) (k : Nat) := if big then (F.view k).dumpBig else (F.view k).dump
     if toks l = ["flip"] then
-      let s1 := { s with head := pk.1, tail := pk.2.1, len := pk.2.2 }
-      ("ok | " ++ (if big then s1.dumpBig else s1.dump)) :: runSOps big (s.head, s.tail, s.len) (some s1) ls
+      ("ok | " ++ dump F (1 - cur)) :: runSOps big (1 - cur) (some F) ls
     else
-    match s.stepBulk (toks l) with
-    | none => "bad-op" :: runSOps big pk (some s) ls
-    | some none => "panic" :: runSOps big pk none ls
-    | some (some (s1, out)) =>
-      (out ++ " | " ++ (if big then s1.dumpBig else s1.dump)) :: runSOps big pk (some s1) ls
+    match F.stepLine cur (toks l) with
+    | none => "bad-op" :: runSOps big cur (some F) ls
+    | some none => "panic" :: runSOps big cur none ls
+    | some (some (F1, out)) => (out ++ " | " ++ dump F1 cur) :: runSOps big cur (some F1) ls
 
 /-- Header `@ C13 slist [z|n] [big]` (`z` = `new(SList)`, `n` = `NewSingly()`: the same state). -/
 def runSListCase (hdr : List String) (ops : List String) : List String :=
   let go (big : Bool) : List String :=
     ("ok | " ++ (if big then SSt.zero.dumpBig else SSt.zero.dump)) ::
-      runSOps big (none, none, 0) (some SSt.zero) ops
+      runSOps big 0 (some SFam.zero) ops
   match hdr with
   | [] => go false
   | ["z"] => go false
